@@ -1,0 +1,76 @@
+//go:build verif
+
+// Package verifhooks exposes packages internal to consoleui to the external
+// verification harness. It is compiled only with the verif build tag.
+package verifhooks
+
+import (
+	"io"
+	"mltwist/internal/consoleui"
+	"mltwist/internal/consoleui/internal/linereader"
+	"mltwist/internal/consoleui/internal/lines"
+	"mltwist/internal/consoleui/internal/memview"
+	"mltwist/internal/deps"
+	"mltwist/internal/state/memory"
+	"mltwist/pkg/model"
+)
+
+// SetInput replaces the reader UI lines are read from.
+func SetInput(r io.Reader) { linereader.VerifSetInput(r) }
+
+// LinesView wraps listing view of code.
+type LinesView struct {
+	v *lines.View
+}
+
+// NewLinesView creates a new listing view of code.
+func NewLinesView(code *deps.Code) LinesView { return LinesView{v: lines.NewView(code)} }
+
+func (l LinesView) MinLines() int         { return l.v.MinLines() }
+func (l LinesView) MaxLines() int         { return l.v.MaxLines() }
+func (l LinesView) Print(n int) error     { return l.v.Print(n) }
+func (l LinesView) Len() int              { return l.v.Lines.Len() }
+func (l LinesView) SetCursor(i int) error { return l.v.Cursor.Set(i) }
+func (l LinesView) Cursor() int           { return l.v.Cursor.Value() }
+
+// MemRow describes a single row of memory view.
+type MemRow = memview.VerifRow
+
+type memMode interface {
+	consoleui.Mode
+	VerifRows() []memview.VerifRow
+	VerifCursor() (int, bool)
+	VerifSetCursor(i int) error
+}
+
+// MemMode wraps memory view mode.
+type MemMode struct {
+	m memMode
+}
+
+// NewMemMode creates memory view mode of mem.
+func NewMemMode(mem memory.Memory) MemMode { return MemMode{m: memview.New(mem)} }
+
+func (m MemMode) Mode() consoleui.Mode  { return m.m }
+func (m MemMode) MinLines() int         { return m.m.View().MinLines() }
+func (m MemMode) MaxLines() int         { return m.m.View().MaxLines() }
+func (m MemMode) Print(n int) error     { return m.m.View().Print(n) }
+func (m MemMode) Rows() []MemRow        { return m.m.VerifRows() }
+func (m MemMode) Cursor() (int, bool)   { return m.m.VerifCursor() }
+func (m MemMode) SetCursor(i int) error { return m.m.VerifSetCursor(i) }
+
+// AsMemMode converts the current UI mode to memory view mode if it is one.
+func AsMemMode(m consoleui.Mode) (MemMode, bool) {
+	mm, ok := m.(memMode)
+	return MemMode{m: mm}, ok
+}
+
+// ParseAddr forwards to address parsing of memory view.
+func ParseAddr(s string) (model.Addr, error) {
+	v, err := memview.VerifParseAddr(s)
+	if err != nil {
+		return 0, err
+	}
+
+	return v.(model.Addr), nil
+}
